@@ -14,6 +14,7 @@
 
 #include "util/array.h"
 #include "util/util.h"
+#include "util/verif_hooks.h"
 
 #include <stdlib.h>
 #include <string.h>
@@ -93,6 +94,10 @@ static int deduplicate_blocks(block_writer_default_t *wr, sqfs_u32 flags, sqfs_u
 
 		ret = check_file_range_equal(wr->file, wr->scratch,
 					     SCRATCH_SIZE, loc_a, loc_b, sz);
+		if (ret == 0)
+			VERIF_PROBE("blkwr_range_equal");
+		if (ret > 0)
+			VERIF_PROBE("blkwr_range_differ");
 		if (ret == 0)
 			break;
 		if (ret < 0)
